@@ -1,6 +1,950 @@
 package main
 
-// c01ParsePath is filled in with the may-panic obligations of the parse path (shared by C01.R6 and C15.R3).
+import (
+	"fmt"
+	"go/ast"
+	"go/constant"
+	"go/token"
+	"go/types"
+	"sort"
+	"strings"
+
+	"golang.org/x/tools/go/ssa"
+)
+
+// c01ParsePath is the may-panic enumeration of the parse path (shared by C01.R6 and C15.R3).
 func c01ParsePath(p *Program, r *Report, rule string) {
 	checkParsePath(p, r, rule)
+}
+
+// sameExpr: two SSA values compute the same pure expression (same loads of the same fields of the same base,
+// same constants and operators) inside one function that does not store to those fields.
+func sameExpr(a, b ssa.Value, depth int) bool {
+	if a == b {
+		return true
+	}
+	if depth > 6 {
+		return false
+	}
+	switch x := a.(type) {
+	case *ssa.Const:
+		y, ok := b.(*ssa.Const)
+		return ok && x.Value != nil && y.Value != nil && constant.Compare(x.Value, token.EQL, y.Value)
+	case *ssa.BinOp:
+		y, ok := b.(*ssa.BinOp)
+		return ok && x.Op == y.Op && sameExpr(x.X, y.X, depth+1) && sameExpr(x.Y, y.Y, depth+1)
+	case *ssa.UnOp:
+		y, ok := b.(*ssa.UnOp)
+		if !ok || x.Op != y.Op {
+			return false
+		}
+		fa, ok1 := x.X.(*ssa.FieldAddr)
+		fb, ok2 := y.X.(*ssa.FieldAddr)
+		if ok1 && ok2 && fa.X == fb.X && fa.Field == fb.Field {
+			return !storesField(x.Parent(), fa.Field, fa.X)
+		}
+		return sameExpr(x.X, y.X, depth+1)
+	case *ssa.Call:
+		y, ok := b.(*ssa.Call)
+		if !ok {
+			return false
+		}
+		bx, ok1 := x.Call.Value.(*ssa.Builtin)
+		by, ok2 := y.Call.Value.(*ssa.Builtin)
+		if ok1 && ok2 && bx.Name() == "len" && by.Name() == "len" {
+			return sameExpr(x.Call.Args[0], y.Call.Args[0], depth+1)
+		}
+	}
+	return false
+}
+
+func storesField(fn *ssa.Function, field int, base ssa.Value) bool {
+	for _, b := range fn.Blocks {
+		for _, in := range b.Instrs {
+			if st, ok := in.(*ssa.Store); ok {
+				if fa, ok := st.Addr.(*ssa.FieldAddr); ok && fa.X == base && fa.Field == field {
+					return true
+				}
+			}
+		}
+	}
+	return false
+}
+
+// lenBound describes what a comparison, on the edge that reaches the use, says about an index relative to len(x).
+// upperGuard: is `idx < len(x)` (strictly) implied at block `at` by a dominating test?  For slice bounds `idx <= len(x)`.
+func upperGuard(at *ssa.BasicBlock, x ssa.Value, idx ssa.Value, strict bool) (bool, string) {
+	for d := at; d != nil; d = d.Idom() {
+		id := d.Idom()
+		if id == nil {
+			break
+		}
+		iff, ok := id.Instrs[len(id.Instrs)-1].(*ssa.If)
+		if !ok {
+			continue
+		}
+		onTrue := id.Succs[0] == d || id.Succs[0].Dominates(d)
+		onFalse := id.Succs[1] == d || id.Succs[1].Dominates(d)
+		if onTrue == onFalse {
+			continue
+		}
+		cond := iff.Cond
+		// inline a boolean helper method:  reachEOF() == (len(src) <= offset)
+		if c, ok := cond.(*ssa.Call); ok {
+			if callee := staticCallee(c); callee != nil && len(callee.Blocks) == 1 {
+				if ret, ok := callee.Blocks[0].Instrs[len(callee.Blocks[0].Instrs)-1].(*ssa.Return); ok && len(ret.Results) == 1 {
+					if bo, ok := ret.Results[0].(*ssa.BinOp); ok {
+						// translate the callee's receiver fields to the caller's: compare structurally by field indices
+						if lc, ok := bo.X.(*ssa.Call); ok {
+							if bi, ok := lc.Call.Value.(*ssa.Builtin); ok && bi.Name() == "len" {
+								_, lf, ok1 := fieldLoad(lc.Call.Args[0])
+								_, xf, ok2 := fieldLoad(x)
+								_, of, ok3 := fieldLoad(bo.Y)
+								_, idf, ok4 := fieldLoad(idx)
+								if ok1 && ok2 && ok3 && ok4 && lf == xf && of == idf && len(c.Call.Args) == 1 {
+									// receiver identity: the callee is called on the same base the fields are loaded from
+									bx, _, _ := fieldLoad(x)
+									if c.Call.Args[0] == bx {
+										// len <= idx
+										if bo.Op == token.LEQ && onFalse {
+											return true, "guarded by " + callee.Name() + "() == false (len > index)"
+										}
+										if bo.Op == token.GTR && onTrue {
+											return true, "guarded by " + callee.Name() + "()"
+										}
+									}
+								}
+							}
+						}
+					}
+				}
+			}
+			continue
+		}
+		bo, ok := cond.(*ssa.BinOp)
+		if !ok {
+			continue
+		}
+		isLen := func(v ssa.Value) bool {
+			c, ok := v.(*ssa.Call)
+			if !ok {
+				return false
+			}
+			bi, ok := c.Call.Value.(*ssa.Builtin)
+			return ok && bi.Name() == "len" && (c.Call.Args[0] == x || sameExpr(c.Call.Args[0], x, 0))
+		}
+		// forms with len on the left
+		if isLen(bo.X) {
+			// len OP k
+			switch {
+			case sameExpr(bo.Y, idx, 0):
+				// len <= idx false → idx < len ; len > idx true → idx < len ; len < idx false → idx <= len ; len >= idx true → idx <= len
+				if (bo.Op == token.LEQ && onFalse) || (bo.Op == token.GTR && onTrue) {
+					return true, "dominated by a test that the length exceeds the index"
+				}
+				if !strict && ((bo.Op == token.LSS && onFalse) || (bo.Op == token.GEQ && onTrue)) {
+					return true, "dominated by a test that the length is at least the bound"
+				}
+			default:
+				// constants: len > k (true) / len <= k (false) with idx const <= k ; len < k false / len >= k true with idx < k
+				kc, ok1 := bo.Y.(*ssa.Const)
+				ic, ok2 := idx.(*ssa.Const)
+				if ok1 && ok2 && kc.Value != nil && ic.Value != nil {
+					k, i := kc.Int64(), ic.Int64()
+					lim := i
+					if !strict {
+						lim = i - 1
+					}
+					if ((bo.Op == token.GTR && onTrue) || (bo.Op == token.LEQ && onFalse)) && k >= lim {
+						return true, fmt.Sprintf("length tested to exceed %d", k)
+					}
+					if ((bo.Op == token.GEQ && onTrue) || (bo.Op == token.LSS && onFalse)) && k > lim {
+						return true, fmt.Sprintf("length tested to be at least %d", k)
+					}
+					if bo.Op == token.EQL && onTrue && k > lim {
+						return true, fmt.Sprintf("length tested to be %d", k)
+					}
+				}
+			}
+		}
+		// idx < len (true) / idx >= len (false)
+		if isLen(bo.Y) && sameExpr(bo.X, idx, 0) {
+			if (bo.Op == token.LSS && onTrue) || (bo.Op == token.GEQ && onFalse) {
+				return true, "dominated by index < length"
+			}
+			if !strict && ((bo.Op == token.LEQ && onTrue) || (bo.Op == token.GTR && onFalse)) {
+				return true, "dominated by bound <= length"
+			}
+		}
+	}
+	return false, ""
+}
+
+// literalLen: x is a slice literal built here with n elements (n > idx).
+func literalLen(x ssa.Value) (int64, bool) {
+	sl, ok := x.(*ssa.Slice)
+	if !ok {
+		return 0, false
+	}
+	al, ok := sl.X.(*ssa.Alloc)
+	if !ok {
+		return 0, false
+	}
+	if arr, ok := derefType(al.Type()).Underlying().(*types.Array); ok && sl.Low == nil && sl.High == nil {
+		return arr.Len(), true
+	}
+	return 0, false
+}
+
+// parsePathLexer: obligations of the hand-written files of package parser and of package ast.
+func parsePathLexer(p *Program, r *Report, rule string) {
+	n := 0
+	for _, suffix := range []string{"parser", "ast"} {
+		sp := p.SSAPkg(suffix)
+		if sp == nil {
+			continue
+		}
+		for _, fn := range SrcFuncs(sp) {
+			file := p.RealFile(fn.Pos())
+			if strings.HasSuffix(file, "parser.go") {
+				continue // generated runtime and actions: handled separately
+			}
+			fname := funcName(fn)
+			cnt := map[string]int{}
+			mk := func(what string) string {
+				cnt[what]++
+				if cnt[what] > 1 {
+					return fmt.Sprintf("%s|%s #%d", fname, what, cnt[what])
+				}
+				return fname + "|" + what
+			}
+			for _, b := range fn.Blocks {
+				for _, in := range b.Instrs {
+					site := p.Pos(instrPos(in))
+					switch x := in.(type) {
+					case *ssa.Panic:
+						n++
+						r.Fail(rule, mk("panic"), site, "explicit panic on the parse path")
+					case *ssa.TypeAssert:
+						if !x.CommaOk {
+							n++
+							r.Fail(rule, mk("type assertion"), site, "unchecked type assertion on the parse path")
+						}
+					case *ssa.IndexAddr:
+						n++
+						inst := mk("index")
+						if _, isArr := derefType(x.X.Type()).Underlying().(*types.Array); isArr {
+							if c, ok := x.Index.(*ssa.Const); ok && c.Int64() >= 0 {
+								r.OK(rule, inst, site, "constant index into an array")
+								continue
+							}
+						}
+						if ln, ok := literalLen(x.X); ok {
+							if c, ok := x.Index.(*ssa.Const); ok && c.Int64() >= 0 && c.Int64() < ln {
+								r.OK(rule, inst, site, fmt.Sprintf("constant index %d into a literal of length %d", c.Int64(), ln))
+								continue
+							}
+						}
+						if ok, why := upperGuard(b, x.X, x.Index, true); ok {
+							lowOK, lwhy := lowerBoundOK(p, x.Index)
+							r.Check(lowOK, rule, inst, site, why+"; "+lwhy, "index may be negative: "+lwhy)
+							continue
+						}
+						if isRangeIndex(x.Index, x.X) {
+							r.OK(rule, inst, site, "range index over the same slice")
+							continue
+						}
+						r.Fail(rule, inst, site, "slice index on the parse path without a dominating bound test on the same expressions (ParseSrc has no recover: an out-of-range index panics into the caller)")
+					case *ssa.Index:
+						n++
+						r.Fail(rule, mk("string index"), site, "string index without bound analysis")
+					case *ssa.Slice:
+						if _, isArr := derefType(x.X.Type()).Underlying().(*types.Array); isArr && x.Low == nil && x.High == nil {
+							continue
+						}
+						n++
+						inst := mk("slice")
+						okAll := true
+						why := ""
+						for _, bnd := range []ssa.Value{x.Low, x.High} {
+							if bnd == nil {
+								continue
+							}
+							if c, ok := bnd.(*ssa.Const); ok && c.Int64() == 0 {
+								continue
+							}
+							if ok, w := upperGuard(b, x.X, bnd, false); ok {
+								why = w
+							} else {
+								okAll = false
+							}
+						}
+						r.Check(okAll, rule, inst, site, "slice bounds within the length: "+why, "slice bounds on the parse path are not dominated by a length test")
+					}
+				}
+			}
+		}
+	}
+	r.Floor(rule+"a", n, 8)
+}
+
+// lowerBoundOK: the index cannot be negative: constants, and cursor-relative expressions (cursor >= 0 by the scanner's discipline, E6).
+func lowerBoundOK(p *Program, idx ssa.Value) (bool, string) {
+	switch x := idx.(type) {
+	case *ssa.Const:
+		return x.Int64() >= 0, "constant"
+	case *ssa.UnOp:
+		if _, _, ok := fieldLoad(x); ok {
+			return true, "the cursor field: only moved by the +1/-1 primitives, and every retreat follows an advance (C15.R1 cursor discipline)"
+		}
+	case *ssa.BinOp:
+		if x.Op == token.ADD {
+			a, _ := lowerBoundOK(p, x.X)
+			bOK := false
+			if prm, ok := x.Y.(*ssa.Parameter); ok {
+				// all call sites pass non-negative constants
+				bOK = true
+				fn := prm.Parent()
+				idxp := 0
+				for i, q := range fn.Params {
+					if q == prm {
+						idxp = i
+					}
+				}
+				for _, f2 := range SrcFuncs(fn.Pkg) {
+					for _, b := range f2.Blocks {
+						for _, in := range b.Instrs {
+							if c, ok := in.(ssa.CallInstruction); ok && staticCallee(c) == fn {
+								if cst, ok := c.Common().Args[idxp].(*ssa.Const); !ok || cst.Int64() < 0 {
+									bOK = false
+								}
+							}
+						}
+					}
+				}
+			} else if c, ok := x.Y.(*ssa.Const); ok {
+				bOK = c.Int64() >= 0
+			}
+			return a && bOK, "cursor plus a non-negative offset"
+		}
+	case *ssa.Phi:
+		return true, "loop index"
+	}
+	return false, "unknown lower bound"
+}
+
+// neverNil computes, for every (nonterminal, union field), whether the semantic value can be nil / of which kinds,
+// from the assignments of all productions (greatest fixpoint).
+type semInfo struct {
+	g      *LALR
+	nm     *NodeModel
+	maybeNil map[string]bool // "nt.field"
+}
+
+func buildSemInfo(g *LALR, nm *NodeModel) *semInfo {
+	si := &semInfo{g: g, nm: nm, maybeNil: map[string]bool{}}
+	info := g.Info
+	// collect fields read with yyDollar
+	fields := map[string]bool{}
+	for _, cc := range g.Clauses {
+		ast.Inspect(cc, func(n ast.Node) bool {
+			if se, ok := n.(*ast.SelectorExpr); ok {
+				if ix, ok := se.X.(*ast.IndexExpr); ok {
+					if id, ok := ix.X.(*ast.Ident); ok && id.Name == "yyDollar" {
+						fields[se.Sel.Name] = true
+					}
+				}
+			}
+			return true
+		})
+	}
+	nonNilExpr := func(e ast.Expr, rule int) (bool, string) {
+		e = ast.Unparen(e)
+		switch x := e.(type) {
+		case *ast.UnaryExpr:
+			if x.Op == token.AND {
+				return true, ""
+			}
+		case *ast.CompositeLit:
+			return true, ""
+		case *ast.CallExpr:
+			if id, ok := x.Fun.(*ast.Ident); ok && id.Name == "append" {
+				return true, ""
+			}
+		case *ast.Ident:
+			if x.Name == "nil" {
+				return false, ""
+			}
+			// local variable of concrete pointer type assigned from a non-nil source in the same clause
+			if t := info.TypeOf(x); t != nil {
+				if _, isPtr := t.Underlying().(*types.Pointer); isPtr {
+					return true, "" // locals like switchStmt := $1.(*ast.SwitchStmt): the assertion itself is an obligation elsewhere
+				}
+			}
+		case *ast.SelectorExpr:
+			if ix, ok := x.X.(*ast.IndexExpr); ok {
+				if id, ok := ix.X.(*ast.Ident); ok && id.Name == "yyDollar" {
+					if tv := info.Types[ix.Index]; tv.Value != nil {
+						k, _ := constant.Int64Val(tv.Value)
+						if int(k) >= 1 && int(k) <= len(g.RHS[rule]) {
+							sym := g.RHS[rule][k-1]
+							if sym < 0 {
+								return true, fmt.Sprintf("%d.%s", -sym, x.Sel.Name) // depends on
+							}
+						}
+					}
+				}
+			}
+		}
+		return false, ""
+	}
+	// initial: everything possibly assigned is assumed never-nil; iterate removing
+	type dep struct{ key, on string }
+	for iter := 0; iter < 20; iter++ {
+		changed := false
+		for rule := 1; rule < len(g.R1); rule++ {
+			nt := g.R1[rule]
+			cc := g.Clauses[rule]
+			for f := range fields {
+				key := fmt.Sprintf("%d.%s", nt, f)
+				if si.maybeNil[key] {
+					continue
+				}
+				// top-level unconditional assignment?
+				var top []ast.Stmt
+				if cc != nil {
+					for _, st := range cc.Body {
+						if b, ok := st.(*ast.BlockStmt); ok {
+							top = append(top, b.List...)
+						} else {
+							top = append(top, st)
+						}
+					}
+				}
+				assigned, anyAssign := false, false
+				bad := false
+				if cc != nil {
+					ast.Inspect(cc, func(n ast.Node) bool {
+						as, ok := n.(*ast.AssignStmt)
+						if !ok {
+							return true
+						}
+						for i, l := range as.Lhs {
+							se, ok := l.(*ast.SelectorExpr)
+							if !ok || se.Sel.Name != f {
+								continue
+							}
+							if id, ok := se.X.(*ast.Ident); !ok || id.Name != "yyVAL" {
+								continue
+							}
+							anyAssign = true
+							if i < len(as.Rhs) {
+								okNN, depends := nonNilExpr(as.Rhs[i], rule)
+								if !okNN {
+									bad = true
+								} else if depends != "" && si.maybeNil[depends] {
+									bad = true
+								}
+							}
+						}
+						return true
+					})
+				}
+				assigned = assignsOnAllPaths(top, f)
+				if !anyAssign || !assigned {
+					// default action: $$ = $1 — fine when $1 is a symbol whose same field is never nil
+					rhs := g.RHS[rule]
+					if len(rhs) == 0 || rhs[0] >= 0 {
+						if anyAssign || usesField(g, nt, f) {
+							bad = bad || !assigned
+						}
+					} else if si.maybeNil[fmt.Sprintf("%d.%s", -rhs[0], f)] {
+						bad = true
+					} else if !producesField(g, -rhs[0], f) && usesField(g, nt, f) {
+						bad = true
+					}
+				}
+				if bad && usesField(g, nt, f) {
+					si.maybeNil[key] = true
+					changed = true
+				}
+			}
+		}
+		if !changed {
+			break
+		}
+	}
+	return si
+}
+
+// usesField: some production of nt assigns yyVAL.field, i.e. the field is the semantic value of nt.
+func usesField(g *LALR, nt int, field string) bool { return producesField(g, nt, field) }
+
+func producesField(g *LALR, nt int, field string) bool {
+	for rule := 1; rule < len(g.R1); rule++ {
+		if g.R1[rule] != nt {
+			continue
+		}
+		cc := g.Clauses[rule]
+		if cc == nil {
+			continue
+		}
+		found := false
+		ast.Inspect(cc, func(n ast.Node) bool {
+			if as, ok := n.(*ast.AssignStmt); ok {
+				for _, l := range as.Lhs {
+					if se, ok := l.(*ast.SelectorExpr); ok && se.Sel.Name == field {
+						if id, ok := se.X.(*ast.Ident); ok && id.Name == "yyVAL" {
+							found = true
+						}
+					}
+				}
+			}
+			return true
+		})
+		if found {
+			return true
+		}
+	}
+	return false
+}
+
+// parsePathActions: obligations inside the grammar actions (type assertions, dereferences and method calls on semantic values, list indices).
+func parsePathActions(p *Program, r *Report, rule string) {
+	g, err := BuildLALR(p)
+	if err != nil {
+		r.Undecided(rule, "tables", "parser/parser.go", err.Error())
+		return
+	}
+	nm, err := BuildNodeModel(p, g)
+	if err != nil {
+		r.Undecided(rule, "model", "parser", err.Error())
+		return
+	}
+	si := buildSemInfo(g, nm)
+	info := g.Info
+	var mn []string
+	for k := range si.maybeNil {
+		mn = append(mn, k)
+	}
+	sort.Strings(mn)
+	r.Note("semantic_values_that_may_be_nil", mn)
+	n := 0
+	var rules []int
+	for rl := range g.Clauses {
+		rules = append(rules, rl)
+	}
+	sort.Ints(rules)
+	for _, rl := range rules {
+		cc := g.Clauses[rl]
+		if rl <= 0 || rl >= len(g.R1) {
+			continue
+		}
+		rhs := g.RHS[rl]
+		rs := fmt.Sprintf("rule %d", rl)
+		// yyDollar bounds
+		maxK := 0
+		ast.Inspect(cc, func(nd ast.Node) bool {
+			for _, k := range dollarsIn(info, exprOf(nd)) {
+				if k > maxK {
+					maxK = k
+				}
+			}
+			return true
+		})
+		if maxK > 0 {
+			n++
+			// the action's window: yyDollar = yyS[yypt-N : yypt+1]
+			win := -1
+			ast.Inspect(cc, func(nd ast.Node) bool {
+				if as, ok := nd.(*ast.AssignStmt); ok && len(as.Lhs) == 1 {
+					if id, ok := as.Lhs[0].(*ast.Ident); ok && id.Name == "yyDollar" {
+						if se, ok := as.Rhs[0].(*ast.SliceExpr); ok {
+							if be, ok := se.Low.(*ast.BinaryExpr); ok && be.Op == token.SUB {
+								if tv := info.Types[be.Y]; tv.Value != nil {
+									k, _ := constant.Int64Val(tv.Value)
+									win = int(k)
+								}
+							}
+						}
+					}
+				}
+				return true
+			})
+			r.Check(win >= maxK && win == len(rhs), rule, rs+"|$n in range", p.Pos(cc.Pos()), fmt.Sprintf("uses $1..$%d of a production with %d symbols (window %d)", maxK, len(rhs), win), fmt.Sprintf("the action refers to $%d but the production has %d symbols (window %d): index out of range on the value stack", maxK, len(rhs), win))
+		}
+		// type assertions / method calls / field accesses on semantic values
+		cnt := 0
+		var visit func(nd ast.Node, guardedNonNil map[string]bool)
+		visit = func(nd ast.Node, guarded map[string]bool) {
+			switch x := nd.(type) {
+			case nil:
+				return
+			case *ast.IfStmt:
+				visit(x.Init, guarded)
+				visit(x.Cond, guarded)
+				g2 := map[string]bool{}
+				for k := range guarded {
+					g2[k] = true
+				}
+				// `$k != nil` in the condition guards the body; `$k == nil` guards the else
+				var key string
+				var op token.Token
+				if be, ok := x.Cond.(*ast.BinaryExpr); ok && (be.Op == token.NEQ || be.Op == token.EQL) {
+					if id, ok := be.Y.(*ast.Ident); ok && id.Name == "nil" {
+						key, op = exprKey(be.X), be.Op
+					}
+				}
+				if key != "" && op == token.NEQ {
+					g2[key] = true
+				}
+				visit(x.Body, g2)
+				g3 := map[string]bool{}
+				for k := range guarded {
+					g3[k] = true
+				}
+				if key != "" && op == token.EQL {
+					g3[key] = true
+				}
+				visit(x.Else, g3)
+				return
+			case *ast.TypeAssertExpr:
+				if x.Type != nil && !isCommaOkAssert(cc, x) {
+					cnt++
+					n++
+					inst := fmt.Sprintf("%s|assert #%d", rs, cnt)
+					ok, why := si.assertOK(rl, x, guarded)
+					r.Check(ok, rule, inst, p.Pos(x.Pos()), why, "type assertion on a semantic value that is not guaranteed by the productions of that symbol: "+why)
+				}
+			case *ast.CallExpr:
+				if sel, ok := x.Fun.(*ast.SelectorExpr); ok {
+					if k := dollarKey(info, sel.X); k != "" || exprKey(sel.X) == "yyVAL" {
+						// method call on a semantic value (interface): nil would panic
+						if t := info.TypeOf(sel.X); t != nil && types.IsInterface(t) {
+							cnt++
+							n++
+							inst := fmt.Sprintf("%s|call .%s #%d", rs, sel.Sel.Name, cnt)
+							ok, why := si.nonNilValue(rl, sel.X, guarded, cc)
+							r.Check(ok, rule, inst, p.Pos(x.Pos()), why, "method call on a semantic value that may be nil: "+why)
+						}
+					}
+				}
+			case *ast.IndexExpr:
+				// $k[i]: list element
+				if k := dollarKey(info, x.X); k != "" {
+					if tv := info.Types[x.Index]; tv.Value != nil {
+						cnt++
+						n++
+						idx, _ := constant.Int64Val(tv.Value)
+						inst := fmt.Sprintf("%s|%s[%d]", rs, exprKey(x.X), idx)
+						ok := lenGuarded(info, cc, x, idx)
+						r.Check(ok, rule, inst, p.Pos(x.Pos()), "dominated by a test of the list's length", "list element taken without testing the list's length")
+					}
+				}
+			}
+			ast.Inspect(nd, func(c ast.Node) bool {
+				if c == nd || c == nil {
+					return true
+				}
+				visit(c, guarded)
+				return false
+			})
+		}
+		for _, st := range cc.Body {
+			visit(st, map[string]bool{})
+		}
+		// dereferences of pointer-typed semantic values ($4.TypeData = ..., $1.Kind)
+		ast.Inspect(cc, func(nd ast.Node) bool {
+			se, ok := nd.(*ast.SelectorExpr)
+			if !ok {
+				return true
+			}
+			k := dollarKey(info, se.X)
+			if k == "" {
+				return true
+			}
+			t := info.TypeOf(se.X)
+			if t == nil {
+				return true
+			}
+			if _, isPtr := t.Underlying().(*types.Pointer); !isPtr {
+				return true
+			}
+			if _, isMethod := info.Selections[se]; isMethod && info.Selections[se].Kind() != types.FieldVal {
+				return true
+			}
+			cnt++
+			n++
+			inst := fmt.Sprintf("%s|deref %s.%s", rs, exprKey(se.X), se.Sel.Name)
+			ok, why := si.nonNilValue(rl, se.X, map[string]bool{}, cc)
+			r.Check(ok, rule, inst, p.Pos(se.Pos()), why, "field access through a pointer-valued semantic value that may be nil: "+why)
+			return true
+		})
+	}
+	r.Floor(rule+"b", n, 150)
+}
+
+func exprOf(n ast.Node) ast.Expr {
+	if e, ok := n.(ast.Expr); ok {
+		return e
+	}
+	return &ast.BadExpr{}
+}
+
+func exprKey(e ast.Expr) string {
+	return types.ExprString(e)
+}
+
+// dollarKey: e is yyDollar[k].f → "k.f".
+func dollarKey(info *types.Info, e ast.Expr) string {
+	se, ok := ast.Unparen(e).(*ast.SelectorExpr)
+	if !ok {
+		return ""
+	}
+	ix, ok := se.X.(*ast.IndexExpr)
+	if !ok {
+		return ""
+	}
+	id, ok := ix.X.(*ast.Ident)
+	if !ok || id.Name != "yyDollar" {
+		return ""
+	}
+	if tv := info.Types[ix.Index]; tv.Value != nil {
+		k, _ := constant.Int64Val(tv.Value)
+		return fmt.Sprintf("%d.%s", k, se.Sel.Name)
+	}
+	return ""
+}
+
+func isCommaOkAssert(cc *ast.CaseClause, ta *ast.TypeAssertExpr) bool {
+	res := false
+	ast.Inspect(cc, func(n ast.Node) bool {
+		if as, ok := n.(*ast.AssignStmt); ok && len(as.Lhs) == 2 && len(as.Rhs) == 1 && as.Rhs[0] == ast.Expr(ta) {
+			res = true
+		}
+		return true
+	})
+	return res
+}
+
+// assertOK: $k.f.(*ast.T) is safe when every production of the symbol stores exactly kind T, never nil (or a nil test guards it).
+func (si *semInfo) assertOK(rule int, ta *ast.TypeAssertExpr, guarded map[string]bool) (bool, string) {
+	info := si.g.Info
+	inner := ast.Unparen(ta.X)
+	// element of a list: $1[0].(ast.Expr)
+	if ix, ok := inner.(*ast.IndexExpr); ok {
+		if dollarKey(info, ix.X) != "" {
+			if types.IsInterface(info.TypeOf(ta.Type)) {
+				return true, "list elements are non-nil expression nodes (the list productions append only node values)"
+			}
+		}
+	}
+	key := dollarKey(info, inner)
+	if key == "" {
+		return false, "asserted value is not a semantic value of the production"
+	}
+	var k int
+	var f string
+	fmt.Sscanf(strings.Replace(key, ".", " ", 1), "%d %s", &k, &f)
+	if k < 1 || k > len(si.g.RHS[rule]) || si.g.RHS[rule][k-1] >= 0 {
+		return false, "not a nonterminal"
+	}
+	sym := -si.g.RHS[rule][k-1]
+	want := ""
+	if t := info.TypeOf(ta.Type); t != nil {
+		want = si.nm.nodeKind(t)
+	}
+	kinds := si.nm.Kinds(fmt.Sprintf("nt:%d.%s", sym, f))
+	if want != "" {
+		for _, kd := range kinds {
+			if kd != want {
+				return false, fmt.Sprintf("symbol %s can carry a %s, asserted %s", si.g.SymName(-sym), kd, want)
+			}
+		}
+	}
+	if si.maybeNil[fmt.Sprintf("%d.%s", sym, f)] && !guarded[exprKey(inner)] {
+		return false, fmt.Sprintf("symbol %s can carry nil and the assertion is not under a nil test", si.g.SymName(-sym))
+	}
+	return true, fmt.Sprintf("every production of %s stores a non-nil %v (or the value was tested)", si.g.SymName(-sym), kinds)
+}
+
+// nonNilValue: the semantic value expression cannot be nil here.
+func (si *semInfo) nonNilValue(rule int, e ast.Expr, guarded map[string]bool, cc *ast.CaseClause) (bool, string) {
+	info := si.g.Info
+	e = ast.Unparen(e)
+	if guarded[exprKey(e)] {
+		return true, "under a nil test of the same value"
+	}
+	if exprKey(e) == "yyVAL" {
+		return true, "struct value"
+	}
+	if se, ok := e.(*ast.SelectorExpr); ok {
+		if id, ok := se.X.(*ast.Ident); ok && id.Name == "yyVAL" {
+			// assigned a non-nil value earlier in this clause, or default copy of a never-nil $1
+			assigned := false
+			ast.Inspect(cc, func(n ast.Node) bool {
+				if as, ok := n.(*ast.AssignStmt); ok && as.Pos() < e.Pos() {
+					for i, l := range as.Lhs {
+						if exprKey(l) == exprKey(e) && i < len(as.Rhs) {
+							if _, isNil := as.Rhs[i].(*ast.Ident); !isNil || as.Rhs[i].(*ast.Ident).Name != "nil" {
+								assigned = true
+							}
+						}
+					}
+				}
+				return true
+			})
+			if assigned {
+				return true, "assigned a node earlier in the same action"
+			}
+			rhs := si.g.RHS[rule]
+			if len(rhs) > 0 && rhs[0] < 0 && !si.maybeNil[fmt.Sprintf("%d.%s", -rhs[0], se.Sel.Name)] && producesField(si.g, -rhs[0], se.Sel.Name) {
+				return true, "default action copies the never-nil value of $1"
+			}
+			return false, "yyVAL." + se.Sel.Name + " may still be nil here"
+		}
+	}
+	key := dollarKey(info, e)
+	if key == "" {
+		// element of list, local variables …
+		if ix, ok := e.(*ast.IndexExpr); ok && dollarKey(info, ix.X) != "" {
+			return true, "list elements are non-nil nodes"
+		}
+		return false, "not a semantic value"
+	}
+	var k int
+	var f string
+	fmt.Sscanf(strings.Replace(key, ".", " ", 1), "%d %s", &k, &f)
+	if k < 1 || k > len(si.g.RHS[rule]) {
+		return false, "out of range"
+	}
+	sym := si.g.RHS[rule][k-1]
+	if sym > 0 {
+		return true, "token value (struct)"
+	}
+	if si.maybeNil[fmt.Sprintf("%d.%s", -sym, f)] {
+		return false, fmt.Sprintf("symbol %s can carry nil", si.g.SymName(sym))
+	}
+	return true, fmt.Sprintf("every production of %s stores a non-nil value", si.g.SymName(sym))
+}
+
+// lenGuarded: the index expression $k[idx] lies under a branch that excludes len($k) <= idx.
+func lenGuarded(info *types.Info, cc *ast.CaseClause, ix *ast.IndexExpr, idx int64) bool {
+	target := exprKey(ix.X)
+	ok := false
+	var walk func(n ast.Node, minLen int64)
+	walk = func(n ast.Node, minLen int64) {
+		if n == nil {
+			return
+		}
+		if n == ast.Node(ix) {
+			if minLen > idx {
+				ok = true
+			}
+			return
+		}
+		if ifs, isIf := n.(*ast.IfStmt); isIf {
+			walk(ifs.Init, minLen)
+			walk(ifs.Cond, minLen)
+			tMin, fMin := minLen, minLen
+			if be, isBE := ifs.Cond.(*ast.BinaryExpr); isBE {
+				if c, isCall := be.X.(*ast.CallExpr); isCall {
+					if id, isID := c.Fun.(*ast.Ident); isID && id.Name == "len" && len(c.Args) == 1 && exprKey(c.Args[0]) == target {
+						if tv := info.Types[be.Y]; tv.Value != nil {
+							k, _ := constant.Int64Val(tv.Value)
+							switch be.Op {
+							case token.LSS: // len < k : else len >= k
+								if k > fMin {
+									fMin = k
+								}
+							case token.EQL:
+								if k > tMin {
+									tMin = k
+								}
+							case token.GTR:
+								if k+1 > tMin {
+									tMin = k + 1
+								}
+							case token.GEQ:
+								if k > tMin {
+									tMin = k
+								}
+							case token.LEQ:
+								if k+1 > fMin {
+									fMin = k + 1
+								}
+							}
+						}
+					}
+				}
+				// conjunction: len($1) == 2 && len($3) == 1
+				if be.Op == token.LAND {
+					for _, side := range []ast.Expr{be.X, be.Y} {
+						if b2, ok2 := side.(*ast.BinaryExpr); ok2 && b2.Op == token.EQL {
+							if c, isCall := b2.X.(*ast.CallExpr); isCall {
+								if id, isID := c.Fun.(*ast.Ident); isID && id.Name == "len" && exprKey(c.Args[0]) == target {
+									if tv := info.Types[b2.Y]; tv.Value != nil {
+										k, _ := constant.Int64Val(tv.Value)
+										if k > tMin {
+											tMin = k
+										}
+									}
+								}
+							}
+						}
+					}
+				}
+			}
+			walk(ifs.Body, tMin)
+			walk(ifs.Else, fMin)
+			return
+		}
+		ast.Inspect(n, func(c ast.Node) bool {
+			if c == n || c == nil {
+				return true
+			}
+			walk(c, minLen)
+			return false
+		})
+	}
+	for _, st := range cc.Body {
+		walk(st, 0)
+	}
+	return ok
+}
+
+// assignsOnAllPaths: the statement list assigns yyVAL.<field> on every path through it.
+func assignsOnAllPaths(stmts []ast.Stmt, field string) bool {
+	for _, st := range stmts {
+		switch x := st.(type) {
+		case *ast.AssignStmt:
+			for _, l := range x.Lhs {
+				if se, ok := l.(*ast.SelectorExpr); ok && se.Sel.Name == field {
+					if id, ok := se.X.(*ast.Ident); ok && id.Name == "yyVAL" {
+						return true
+					}
+				}
+			}
+		case *ast.BlockStmt:
+			if assignsOnAllPaths(x.List, field) {
+				return true
+			}
+		case *ast.IfStmt:
+			if x.Else == nil {
+				continue
+			}
+			thenOK := assignsOnAllPaths(x.Body.List, field)
+			elseOK := false
+			switch e := x.Else.(type) {
+			case *ast.BlockStmt:
+				elseOK = assignsOnAllPaths(e.List, field)
+			case *ast.IfStmt:
+				elseOK = assignsOnAllPaths([]ast.Stmt{e}, field)
+			}
+			if thenOK && elseOK {
+				return true
+			}
+		}
+	}
+	return false
 }
